@@ -107,3 +107,16 @@ Qed.
 
 Example unary_ex : exists r, model_op 12 [] [] [t_ex] 2 = Ok r /\ denote xval r [1; 1] = XF (Q2Qc (Qmake 3 2)).
 Proof. eexists. split; [reflexivity|]. vm_compute. reflexivity. Qed.
+
+(** F22: relu_ / maximum compute the default with Python's max, which drops a NaN default *)
+Definition t_nan : pt :=
+  mkPT (fun idx => match idx with [0] => XF 1 | _ => XF (Q2Qc (Qmake (-2) 1)) end)
+       [(1%positive, 2)] [Phys 1 2; Phys 1 2] XNaN.
+
+Theorem relu_nan_default_refuted :
+  exists r, model_op 12 [] [] [t_nan] 2 = Ok r /\
+            denote xval r [0; 1] = XF 0 /\ xrelu (denote xval t_nan [0; 1]) = XNaN.
+Proof. eexists. split; [reflexivity|]. split; vm_compute; reflexivity. Qed.
+
+Theorem maximum_nan_default_refuted : py_max (XF 1) XNaN = XF 1 /\ xmax (XF 1) XNaN = XNaN.
+Proof. split; reflexivity. Qed.
